@@ -221,7 +221,7 @@ def stitch_expected(dec, bid):
 # --------------------------------------------------------------------------------------
 # Random histories
 
-def rand_history(rng, nsteps, crashes=True, deletes=True):
+def rand_history(rng, nsteps, crashes=True, deletes=True, crash_kinds=("crash", "crash", "crash_empty"), min_crash=3):
     """Return (steps, marks): harness steps, and marks[i] = dict describing step i
     ('kind': src|backup|delete|arch|..., plus bookkeeping)."""
     steps = [{"op": "init"}]
@@ -244,7 +244,7 @@ def rand_history(rng, nsteps, crashes=True, deletes=True):
             set_source(tree)
             plan = None
             if crashes and rng.random() < 0.3:
-                plan = {rng.choice(["crash", "crash", "crash_empty"]): rng.randrange(3, 70)}
+                plan = {rng.choice(list(crash_kinds)): rng.randrange(min_crash, 70)}
             st = {"op": "backup", "opts": small_opts(rng)}
             if plan:
                 st["plan"] = plan
